@@ -316,6 +316,9 @@ func run(c Case) (res result) {
 					return vcore.Violatef("op-on-unrequested-rule", "step %d (%s): %s call for %s[%d] which session %#x never created", step, op.Kind, cl.Op, cl.Kind, cl.ID, s.up)
 				}
 				if !s.R[k] {
+					// created once, removed since: the statement asks for "rules the session has created", and the unchanged code
+					// itself updates a URR that the same message has just removed (removes are handled before updates) and
+					// queries removed URRs while closing a session - counted, not asserted
 					res.afterRemovalOps++
 				}
 				if cl.Op == "remove" && cl.Err == "" {
